@@ -23,6 +23,9 @@ class Unser:
     def __init__(self, kind):
         self.kind = kind
 
+    def __repr__(self):
+        return "<unserialisable %s>" % self.kind
+
     def make(self):
         if self.kind == "object":
             return object()
